@@ -424,6 +424,30 @@ def default_models():
                                                       I.binop('Sub', x1, x0)))
                 res = _ite(I.compare('<', v, x1), seg, res)
             res = _ite(I.compare('<', v, xs[0]), lo, res)
+            # np.interp lies between the smallest and the largest of the values it can return (node values, left, right):
+            # registered for the bound lemmas (pyvc.signs2); part of the assumed np.interp contract, tried by pyvc.conformance
+            if is_sym(res):
+                try:
+                    vals = [to_real(f) if is_sym(f) else to_real(f) for f in ([lo] + list(fs) + [hi])]
+                    mn, mx = vals[0], vals[0]
+                    for f in vals[1:]:
+                        mn = z3.If(f < mn, f, mn)
+                        mx = z3.If(f > mx, f, mx)
+                    if not hasattr(I.ctx, 'term_bounds'):
+                        I.ctx.term_bounds = {}
+                    bounds = (z3.simplify(mn), z3.simplify(mx))
+                    simp = z3.simplify(to_z3(res))       # branch conditions are simplified before they are decided: the same value, another term
+                    I.ctx.term_bounds[to_z3(res).get_id()] = bounds
+                    I.ctx.term_bounds[simp.get_id()] = bounds
+                    I.ctx._term_bounds_keep = getattr(I.ctx, '_term_bounds_keep', []) + [res, simp]      # keep the terms alive: ids are reused otherwise
+                except Exception as e:   # noqa
+                    import os
+                    if os.environ.get('VERIF_DEBUG_SIGNS'):
+                        import sys
+                        print('INTERP-BOUNDS-FAILED', type(e).__name__, e, file=sys.stderr)
+            elif __import__('os').environ.get('VERIF_DEBUG_SIGNS'):
+                import sys
+                print('INTERP-RESULT-NOT-SYMBOLIC', type(res), file=sys.stderr)
             return res
         if isinstance(x, SArr):
             return x.map(one)
